@@ -665,7 +665,9 @@ func (s *s1Sim) drive(op *s1op, done chan struct{}, cancel context.CancelFunc, a
 		}
 		if len(evs) == 1 && evs[0].name == "tick" && ticks >= 6 {
 			// nothing can happen any more and time does not help
-			if op.plan == planRunForever && !cancelled {
+			// (a program that never ends is ended by the caller's cancellation at last - unless Destroy has been called:
+			// that alone must bring the call back)
+			if op.plan == planRunForever && !cancelled && !destroyed {
 				cancelled = true
 				cancel()
 				continue
